@@ -274,6 +274,12 @@ class BayesianProblem(object):
             if np.size(Cx)==1:
                 Cx = Cx.ravel()[0]*np.eye(self.model.domain_dim)
 
+            # If Ce and Cx are vectors (diagonal of the covariance), make them into matrices
+            if isinstance(Ce, np.ndarray) and Ce.ndim == 1:
+                Ce = np.diag(Ce)
+            if isinstance(Cx, np.ndarray) and Cx.ndim == 1:
+                Cx = np.diag(Cx)
+
             #Basic MAP estimate using closed-form expression Tarantola 2005 (3.37-3.38)
             rhs = b-A@x0
             sysm = A@Cx@A.T+Ce
@@ -539,6 +545,12 @@ class BayesianProblem(object):
             Ce = Ce.ravel()[0]*np.eye(self.model.range_dim)
         if np.size(Cx)==1:
             Cx = Cx.ravel()[0]*np.eye(self.model.domain_dim)
+
+        # If Ce and Cx are vectors (diagonal of the covariance), make them into matrices
+        if isinstance(Ce, np.ndarray) and Ce.ndim == 1:
+            Ce = np.diag(Ce)
+        if isinstance(Cx, np.ndarray) and Cx.ndim == 1:
+            Cx = np.diag(Cx)
 
         # Preallocate samples
         n = self.prior.dim 
